@@ -156,3 +156,94 @@ def compare_matrices(ctx, fname, s1, s2, kw, psi_neg, keep, dC, MC, dP, MP, labe
         ctx.violation("engine-distance-mismatch", c=float(dC), python=float(dP), **wit)
         return False
     return True
+
+
+# ------------------------------------------------------------------ C05: paths
+def path_report(path, s1, s2, kw, start_cell=None):
+    """(reason|None, transformed cost along the path)"""
+    l1, l2 = dtwmon.tolist(s1), dtwmon.tolist(s2)
+    r, c = len(l1), len(l2)
+    inn = dtwmon.inner_of(kw)
+    psi = oracle.norm_psi(kw.get("psi"))
+    path = [(int(i), int(j)) for i, j in path]
+    reason = oracle.validate_path(path, r, c, kw.get("window"), psi, start_cell)
+    if reason:
+        return reason, None
+    pen = inn.ival(kw["penalty"]) if kw.get("penalty") else 0.0
+    ms = inn.ival(kw["max_step"]) if kw.get("max_step") else inf
+    cost = oracle.path_cost(path, l1, l2, pen, ms, inn.dist)
+    return None, (inn.result(cost) if cost != inf else inf)
+
+
+def check_path(ctx, fname, path, s1, s2, kw, want_d, label="C05", start_cell=None, extra=None):
+    """path must be valid and its cost must equal want_d (the distance reported for the same settings)"""
+    l1, l2 = dtwmon.tolist(s1), dtwmon.tolist(s2)
+    wit = dict(prop=label, fn=fname, s1=l1, s2=l2, settings=dict(dtwmon.settings_key(kw)),
+               path=[list(map(int, p)) for p in path])
+    if extra:
+        wit.update(extra)
+    ctx.count("c05_paths_checked")
+    reason, cost = path_report(path, s1, s2, kw, start_cell)
+    if reason:
+        ctx.violation("invalid-path", reason=reason, **wit)
+        return False
+    if want_d is not None and not oracle.close(cost, float(want_d), rel=1e-9, abs_=1e-9):
+        ctx.violation("path-cost-differs-from-distance", path_cost=cost, distance=float(want_d), **wit)
+        return False
+    return True
+
+
+# ------------------------------------------- bug-compatible model for the known C05 finding
+def greedy_backtrack_models(M, penalty):
+    """Paths produced by greedy argmin back-tracking over a matrix whose end-relaxed cells are
+    marked -1, for the three tie-breaking orders found in the library (Python best_path, C
+    dtw_best_path, best_path2).  -1 compares as the smallest value, which is exactly the
+    defective mechanism: the walk follows the -1 chain but may leave it through a smaller
+    neighbour instead of reaching the cell that holds the distance."""
+    out = []
+    r, c = len(M) - 1, len(M[0]) - 1
+    for variant in ("py", "c", "bp2"):
+        i, j = r, c
+        p = []
+        if M[i][j] != -1:
+            p.append((i - 1, j - 1))
+        v = M[i][j]
+        while i > 0 and j > 0:
+            dg, up, lf = M[i - 1][j - 1], M[i - 1][j], M[i][j - 1]
+            if variant == "py":
+                cand = [dg, up + penalty, lf + penalty]
+                k = cand.index(min(cand))
+            elif variant == "c":
+                if dg <= lf + penalty and dg <= up + penalty:
+                    k = 0
+                elif lf <= up:
+                    k = 2
+                else:
+                    k = 1
+            else:
+                if v == -1:
+                    v = inf
+                k = None
+                if dg <= v:
+                    k, v = 0, dg
+                if up <= v:
+                    k, v = 1, up
+                if lf <= v:
+                    k, v = 2, lf
+                if k is None:
+                    break
+            if k == 0:
+                i, j = i - 1, j - 1
+            elif k == 1:
+                i -= 1
+            else:
+                j -= 1
+            if variant != "bp2":
+                v = M[i][j]
+            if M[i][j] != -1:
+                p.append((i - 1, j - 1))
+        if p:
+            p.pop()
+        p.reverse()
+        out.append([list(x) for x in p])
+    return out
